@@ -27,6 +27,9 @@ def initial_cache(seed, variant=0):
     if variant == 3:     # mutable byte containers supplied by the embedder (bytearray sigfields, list / dict values)
         return {'sigfield1': bytearray(b'hello '), 'sigfield2': bytearray(b'world'), 'sigfield3': b'!', 'sigfield8': bytearray(b'8'),
                 'timestamp': 1_700_000_000, 'custom': [bytearray(b'ab'), [b'x']], 'P': bytearray(b'p'), b'k': [b'\x01']}
+    if variant == 4:     # falsy values of every kind (a default applied with `or` / `if not value` would replace them)
+        return {'sigfield1': b'', 'sigfield2': bytearray(), 'sigfield3': b'\x00', 'timestamp': 0, 'custom': [], 'returned': False,
+                'E': 0, 'P': b'', 'IR': (), 'x': None, 's': 0.0, 'ts_threshold': 0, b'k': [b'\x01']}
     if variant == 2:
         return {'timestamp': '1700000000', 'sigfield1': [b'a', b'b'], 'custom': {'inner': [1, 2]}, 'returned': 0, b'k': [b'\x01']}
     return {
@@ -142,7 +145,7 @@ def attack_case(ctx, idxs):
     if len(idxs) == 1:
         # every single cache-touching path, also inside IF / TRY / EVAL, on initial caches whose protected
         # entries have other value types
-        for v in (1, 2, 3):
+        for v in (1, 2, 3, 4):
             for wrapname, wrapped in (('top', script), ('IF', op('TRUE') + op('IF') + len(script).to_bytes(2, 'big') + script),
                                       ('TRY', op('TRY_EXCEPT') + len(script).to_bytes(2, 'big') + script + b'\x00\x00'),
                                       ('EVAL', P(script) + op('EVAL') if len(script) < 1000 else script)):
@@ -169,6 +172,30 @@ def attack_case(ctx, idxs):
                       f'script {script.hex()}: {base} -> {got}')
 
 
+def alias_cases():
+    """a value fetched from a str-keyed entry (GET_VALUE / GET_MESSAGE) followed by every instruction x boundary operand,
+    with a longer and a shorter second item on either side: no instruction may modify the embedder's object in place"""
+    from ref.optable import NAME
+    out = []
+    fetches = [op('GET_VALUE') + lv(k) for k in (b'sigfield1', b'sigfield2', b'sigfield8', b'P', b'custom', b'timestamp')] + \
+        [op('GET_MESSAGE') + b'\xfe']
+    others = (P(b'\x01' * 9), P(b'\x01'), b'')
+    for fi, f in enumerate(fetches):
+        for opc in sorted(NAME):
+            for operand in stepspace.operands(NAME[opc])[:6]:
+                for oi, o in enumerate(others):
+                    out.append((fi, opc, o + f + bytes([opc]) + operand))
+                    if o:
+                        out.append((fi, opc, f + o + bytes([opc]) + operand))
+    return out
+
+
+def alias_case(ctx, case):
+    fi, opc, script = case
+    ctx.state((script,))
+    judge(ctx, script, {'family': 'value fetched from a string-keyed entry, then one instruction'}, ctx.seed, variant=3)
+
+
 def ctrl_case(ctx, p):
     script = spaces.render(p)
     ctx.state((script,))
@@ -192,6 +219,9 @@ def blocks(tier, seed):
     bl = [
         Block('cache_attack_sequences', seqs, attack_case,
               'sequences of <= %d statements over %d cache-writing paths / key spellings' % (2 if q else 3, n), nshards=128),
+        Block('fetched_value_x_instruction', alias_cases(), alias_case,
+              'GET_VALUE / GET_MESSAGE of every mutable-container entry x every instruction x boundary operands x second item longer / '
+              'shorter / absent, either order', nshards=64),
         Block('CTRL_skel', lambda s, nn: spaces.progs_upto(3 if q else 4, 'skel', s, nn), ctrl_case,
               'all skeleton control programs', nshards=32),
         Block('CTRL_wit', lambda s, nn: spaces.progs_upto(2 if q else 3, 'wit', s, nn), ctrl_case,
